@@ -1,6 +1,6 @@
 import logging
 from datetime import date
-from typing import List, Optional, Tuple, cast
+from typing import Dict, List, Optional, Tuple, cast
 
 import regex as re
 from courts_db import courts
@@ -404,9 +404,18 @@ def filter_citations(citations: List[CitationBase]) -> List[CitationBase]:
     if not citations:
         return citations
 
-    citations = list(
-        {citation.span(): citation for citation in citations}.values()
-    )
+    # Of two citations with the same span keep the later one, but never let a
+    # reference citation replace a citation of any other kind
+    by_span: Dict[Tuple[int, int], CitationBase] = {}
+    for citation in citations:
+        kept = by_span.get(citation.span())
+        if (
+            kept is None
+            or not isinstance(citation, ReferenceCitation)
+            or isinstance(kept, ReferenceCitation)
+        ):
+            by_span[citation.span()] = citation
+    citations = list(by_span.values())
     sorted_citations = sorted(
         citations, key=lambda citation: citation.full_span()
     )
